@@ -1,10 +1,12 @@
 package sqlcrud
 
 import (
+	"fmt"
 	"go/types"
 	"strings"
 
 	an "github.com/benoitkugler/gomacro/analysis"
+	gen "github.com/benoitkugler/gomacro/generator"
 	"golang.org/x/tools/go/packages"
 )
 
@@ -58,4 +60,94 @@ func HC01_primaryAccessor() {
 		}
 	}
 	vfAssert(ok, "C01/selectors-on-table-values-name-existing-fields")
+}
+
+func c01IsIdent(s string) bool {
+	if s == "" {
+		return false
+	}
+	for i := 0; i < len(s); i++ {
+		c := s[i]
+		if !(c == '_' || (c >= 'a' && c <= 'z') || (c >= 'A' && c <= 'Z') || (i > 0 && c >= '0' && c <= '9')) {
+			return false
+		}
+	}
+	return true
+}
+
+// HC01_sqlcrudDecls: every function and type the CRUD file declares has an identifier as name and
+// is declared once, whatever package the ID types of the foreign keys come from.
+func HC01_sqlcrudDecls() {
+	pkg := skelPkg()
+	foreign := types.NewPackage("other.org/lib/ids", "ids")
+	named := skelNamed(pkg, "Item", types.NewStruct(nil, nil))
+	idT := an.VfNewNamed(skelNamed(pkg, "IdItem", types.Typ[types.Int64]), &an.Basic{B: types.Typ[types.Int64]})
+	fields := []skelField{{name: "Id", typ: idT}}
+	nfk := 1 + vfChoice("fks", 2)
+	for i := 0; i < nfk; i++ {
+		p := pkg
+		if vfChoice(fmt.Sprint("foreign", i), 2) == 1 {
+			p = foreign
+		}
+		var ft an.Type
+		switch vfChoice(fmt.Sprint("fkkind", i), 3) {
+		case 0: // named int64 ID type
+			ft = an.VfNewNamed(skelNamed(p, fmt.Sprint("IdOwner", i), types.Typ[types.Int64]), &an.Basic{B: types.Typ[types.Int64]})
+		case 1: // plain int64 with a tag
+			ft = &an.Basic{B: types.Typ[types.Int64]}
+		default: // nullable wrapper
+			valid := types.NewField(0, p, "Valid", types.Typ[types.Bool], false)
+			data := types.NewField(0, p, "Int64", types.Typ[types.Int64], false)
+			nn := skelNamed(p, fmt.Sprint("OptID", i), types.NewStruct([]*types.Var{valid, data}, nil))
+			ft = &an.Struct{Name: nn, Fields: []an.StructField{{Type: an.Bool, Field: valid}, {Type: &an.Basic{B: types.Typ[types.Int64]}, Field: data}}}
+		}
+		f := skelField{name: fmt.Sprint("Owner", i), typ: ft}
+		if _, isNamed := ft.(*an.Named); !isNamed {
+			f.extra = ` gomacro-sql-foreign:"Owner"`
+		}
+		fields = append(fields, f)
+	}
+	st := skelStruct(pkg, named, fields)
+	if vfChoice("unique", 2) == 1 {
+		st.Comments = append(st.Comments, an.SpecialComment{Kind: an.CommentSQL, Content: "ADD UNIQUE(Owner0)"})
+	}
+	ana := &an.Analysis{Pkg: &packages.Package{PkgPath: pkg.Path(), Types: pkg}, Types: map[types.Type]an.Type{named: st}, Source: []types.Type{named}}
+	text := gen.WriteDeclarations(Generate(ana, vfChoice("sets", 2) == 1))
+	seen := map[string]int{}
+	okIdent := true
+	for _, line := range strings.Split(text, "\n") {
+		line = strings.TrimSpace(line)
+		for _, kw := range []string{"func ", "type "} {
+			if !strings.HasPrefix(line, kw) {
+				continue
+			}
+			rest := line[len(kw):]
+			if strings.HasPrefix(rest, "(") { // method: func (recv T) Name(
+				rest = rest[strings.Index(rest, ")")+1:]
+				rest = strings.TrimSpace(rest)
+				name := rest[:strings.IndexAny(rest, "( ")]
+				okIdent = okIdent && c01IsIdent(name)
+				continue
+			}
+			end := strings.IndexAny(rest, "( ")
+			if end < 0 {
+				continue
+			}
+			name := rest[:end]
+			if !c01IsIdent(name) {
+				vfObserve("bad-name", name)
+			}
+			okIdent = okIdent && c01IsIdent(name)
+			seen[kw+name]++
+		}
+	}
+	vfAssert(okIdent, "C01/declared-functions-and-types-have-identifier-names")
+	once := true
+	for k, n := range seen {
+		if n != 1 {
+			vfObserve("declared-twice", k)
+		}
+		once = once && n == 1
+	}
+	vfAssert(once, "C01/no-function-or-type-declared-twice-in-the-crud-file")
 }
